@@ -327,6 +327,155 @@ fn syncs_without_link(rec: &RunRecord, peer: u32, lane: &str) -> bool {
     false
 }
 
+
+/// C02, "a take or drop command removes exactly the entries designated by the documented key order": every removal
+/// the lane reported to its lifecycle must be explained by a command of the scenario. A removal of key `k` is
+/// explained if it continues the expansion of a take / drop that is under way, or starts the expansion of one of
+/// the take / drop commands sent to the lane (computed on the lane's map at that moment, in key order: drop(n) the
+/// first n keys, take(n) everything after the first n), or if some command of the scenario removes `k` alone
+/// (`@remove`, the control commands `rm` / `xf` / `sr`). Commands are not consumed and their timing is ignored
+/// (any command of the scenario may explain), so the rule can only err on the lenient side.
+fn take_drop_check(rec: &RunRecord, out: &mut Vec<Violation>) {
+    let sc = &rec.scenario;
+    if sc.fake.is_some() || sc.fake_persist.is_some() {
+        return;
+    }
+    let Some(evs) = rec.truth.first() else { return };
+    for (lane, item_no) in [("map", 0), ("bmap", 1), ("tmap", 2), ("smap", -1)] {
+        // Commands of the scenario.
+        let mut drops: BTreeSet<usize> = BTreeSet::new();
+        let mut takes: BTreeSet<usize> = BTreeSet::new();
+        let mut singles: BTreeSet<String> = BTreeSet::new();
+        for p in &sc.peers {
+            for op in &p.ops {
+                if let Op::Cmd { lane: l, body } = op {
+                    if l != lane {
+                        continue;
+                    }
+                    let b = body.trim();
+                    if let Some(r) = b.strip_prefix("@take(").and_then(|r| r.strip_suffix(')')) {
+                        if let Ok(n) = r.trim().parse::<usize>() {
+                            takes.insert(n);
+                        }
+                    } else if let Some(r) = b.strip_prefix("@drop(").and_then(|r| r.strip_suffix(')')) {
+                        if let Ok(n) = r.trim().parse::<usize>() {
+                            drops.insert(n);
+                        }
+                    } else if let Some(r) = b.strip_prefix("@remove(key:").and_then(|r| r.strip_suffix(')')) {
+                        if let Some(k) = recon_key(lane, r.as_bytes()) {
+                            singles.insert(k);
+                        }
+                    }
+                }
+            }
+        }
+        for (_, ev) in evs {
+            if let TruthEv::Ctl { ctl } = ev {
+                match ctl {
+                    Ctl::Rem { item, key } if *item == item_no => {
+                        singles.insert(key.to_string());
+                    }
+                    Ctl::Xf { item, key, remove: true, .. } if *item == item_no => {
+                        singles.insert(key.to_string());
+                    }
+                    Ctl::SRem { key } if lane == "smap" => {
+                        singles.insert(key.clone());
+                    }
+                    _ => {}
+                }
+            }
+        }
+        // The lane's keys in the documented order (Recon order: numeric for the integer keys, text order for smap).
+        let ordered = |m: &BTreeMap<String, i32>| -> Vec<String> {
+            let mut ks: Vec<String> = m.keys().cloned().collect();
+            if lane != "smap" {
+                ks.sort_by_key(|k| k.parse::<i64>().unwrap_or(i64::MAX));
+            }
+            ks
+        };
+        let mut map: BTreeMap<String, i32> = BTreeMap::new();
+        // Possible remainders of the expansion under way ([] = no command is in the middle of its removals).
+        let mut open: BTreeSet<Vec<String>> = BTreeSet::new();
+        open.insert(vec![]);
+        for (step, ev) in evs {
+            match ev {
+                TruthEv::Restored { map: m0, bmap, tmap, smap, .. } => {
+                    map = match lane {
+                        "map" => m0.iter().map(|(k, v)| (k.to_string(), *v)).collect(),
+                        "bmap" => bmap.iter().map(|(k, v)| (k.to_string(), *v)).collect(),
+                        "tmap" => tmap.iter().map(|(k, v)| (k.to_string(), *v)).collect(),
+                        _ => smap.clone(),
+                    };
+                }
+                TruthEv::Update { item, .. } | TruthEv::Clear { item } if *item == lane => {
+                    // A handler runs to completion: the next change of the lane comes after the take / drop has made
+                    // all of its removals.
+                    if !open.contains(&vec![]) {
+                        out.push(Violation::new(
+                            "C02",
+                            "C02.take_drop",
+                            &format!("incomplete:{lane}"),
+                            format!("lane {lane} at step {step}: a take / drop stopped before it had removed the designated entries (still to remove, per possible command: {:?}; map {:?})", open, ordered(&map)),
+                        ));
+                    }
+                    open.clear();
+                    open.insert(vec![]);
+                    match ev {
+                        TruthEv::Update { key, value, .. } => {
+                            map.insert(key.clone(), *value);
+                        }
+                        _ => map.clear(),
+                    }
+                }
+                TruthEv::MapSnap { item, map: m } if *item == lane => {
+                    map = m.clone();
+                }
+                TruthEv::Remove { item, key } if *item == lane => {
+                    let mut next: BTreeSet<Vec<String>> = BTreeSet::new();
+                    for e in &open {
+                        if e.first() == Some(key) {
+                            next.insert(e[1..].to_vec());
+                        }
+                    }
+                    if open.contains(&vec![]) {
+                        let ks = ordered(&map);
+                        for n in &drops {
+                            let exp: Vec<String> = ks.iter().take(*n).cloned().collect();
+                            if exp.first() == Some(key) {
+                                next.insert(exp[1..].to_vec());
+                            }
+                        }
+                        for n in &takes {
+                            let exp: Vec<String> = ks.iter().skip(*n).cloned().collect();
+                            if exp.first() == Some(key) {
+                                next.insert(exp[1..].to_vec());
+                            }
+                        }
+                        if singles.contains(key) {
+                            next.insert(vec![]);
+                        }
+                    }
+                    if next.is_empty() {
+                        out.push(Violation::new(
+                            "C02",
+                            "C02.take_drop",
+                            &format!("unexplained_removal:{lane}"),
+                            format!(
+                                "lane {lane} at step {step}: key {key} was removed from {:?}; no command of the scenario designates it (drop n in {:?}, take n in {:?}, single removals of {:?}; removals under way: {:?})",
+                                ordered(&map), drops, takes, singles, open
+                            ),
+                        ));
+                        next.insert(vec![]);
+                    }
+                    open = next;
+                    map.remove(key);
+                }
+                _ => {}
+            }
+        }
+    }
+}
+
 pub fn check(rec: &RunRecord) -> Vec<Violation> {
     let mut out = vec![];
     let sc = &rec.scenario;
@@ -371,6 +520,8 @@ pub fn check(rec: &RunRecord) -> Vec<Violation> {
             }
         }
     }
+
+    take_drop_check(rec, &mut out);
 
     // Frames of the first incarnation grouped by (peer, lane).
     let mut by_pl: BTreeMap<(u32, String), Vec<&Frame>> = BTreeMap::new();
